@@ -38,7 +38,7 @@ PTR_CHECKS = {
 }
 
 
-def write_stubs(t, workdir):
+def write_stubs(t, workdir, keep=()):
     f = t.get('bidib_handle_received_message')
     L = ['/* GENERATED on every run from the real prototypes: contract stubs of the functions bidib_handle_received_message calls. */',
          '#include "vp_common.h"', '#include <glib.h>']
@@ -47,7 +47,7 @@ def write_stubs(t, workdir):
     L += ['#include "units/C06/dispatch_ghost.h"', 'vp_dispatch_ghost G;', 'static t_bidib_board vp_board;']
     names = []
     for c in f.calls:
-        if c in KEEP_REAL or c == 'syslog_libbidib':
+        if c in KEEP_REAL or c in keep or c == 'syslog_libbidib':
             continue
         g = t.get(c)
         names.append(c)
@@ -69,10 +69,21 @@ def write_stubs(t, workdir):
 def generate(prop, tier, workdir):
     os.makedirs(workdir, exist_ok=True)
     _t = csrc.Tree()
-    stubs, names = write_stubs(_t, workdir)
-    _keep = {"bidib_handle_received_message", "bidib_log_received_message", "bidib_log_sys_error", "bidib_log_boost_stat_error", "bidib_log_boost_stat_okay"}
+    # real bodies: the dispatcher and every same-file helper it (transitively) calls, except the three queue-add helpers (replaced by contracts)
+    _stubbed_local = {"bidib_uplink_queue_add", "bidib_uplink_error_queue_add", "bidib_uplink_intern_queue_add"}
+    _keep, _todo = set(), ["bidib_handle_received_message"]
+    while _todo:
+        _n = _todo.pop()
+        if _n in _keep or _n in _stubbed_local:
+            continue
+        _f = _t.get(_n)
+        if _f is None or not _f.file.endswith("bidib_transmission_receive.c"):
+            continue
+        _keep.add(_n)
+        _todo += _f.calls
     _rm = [f.name for f in _t.by_file["/repo/src/transmission/bidib_transmission_receive.c"] if f.name not in _keep]
-    _fn = ["bidib_handle_received_message", "bidib_log_received_message", "bidib_log_sys_error", "bidib_log_boost_stat_error", "bidib_log_boost_stat_okay"]
+    _fn = sorted(_keep)
+    stubs, names = write_stubs(_t, workdir, _keep)
     _extra = ["/repo/src/transmission/bidib_transmission_util.c", "/repo/src/transmission/bidib_transmission_message_string_mapping.c", "/repo/src/state/bidib_state.c"]
     _rm_state = [f.name for f in _t.by_file["/repo/src/state/bidib_state.c"] if f.name != "bidib_booster_normal_to_simple"]
     units = [
